@@ -60,6 +60,10 @@ func behaviouralJudge(env *hx.Env, p *pg.Prog, files hx.Files, nValues int, seed
 		return res
 	}
 	if ok, _, raw := pg.Build(s.Dir); !ok {
+		if raw == pg.BuildTimeout {
+			res.Timeout = true
+			return res
+		}
 		res.NotBuilt = raw
 		return res
 	}
